@@ -25,7 +25,7 @@ for c in checks:
     helpers = re.findall(r"^import (\w+) as \w+$|^import (_\w+)", src, re.M)
     names = [x for t in helpers for x in t if x] + re.findall(r'"(_\w+)\.py"|load\("(C\d\d)"\)', src) + (["C12", "C14", "gossip_common"] if pid == "C13" else [])
     names = [x if isinstance(x, str) else next((y for y in x if y), "") for x in names]
-    if "_fetch" in src:
+    if "_fetch.py" in src or "import _fetch" in src:
         names.append("_fetch")
     for h in names:
         hp = os.path.join(V, "props", h + ".py")
